@@ -1166,6 +1166,11 @@ enum Class {
     Never,        // not callable by any external role (self / other contract only)
 }
 
+/// pair endpoints that trade against the pool (as opposed to adding / removing liquidity)
+fn bn_is_swap(bn: &str) -> bool {
+    matches!(bn, "swapTokensFixedInput" | "swapTokensFixedOutput" | "swapNoFeeAndForward")
+}
+
 fn base_name(e: &str) -> &str {
     e.split('@').next().unwrap()
 }
@@ -1460,6 +1465,12 @@ impl World {
             }
             if c == "pair" && state == "partial" && class == Class::UserFunds {
                 tr.fail("C19", "partial_pair_liquidity_only", e, &format!("{key}: swap succeeded on a partially active pair"));
+            }
+            // the contract-to-contract swap (fee forwarding by a whitelisted pair) is still a swap: it moves the pool's
+            // reserves, so a partially active pair must refuse it and a paused pair must refuse it
+            if c == "pair" && bn_is_swap(base_name(e)) && class == Class::ContractOnly && state != "active" {
+                let clause = if state == "partial" { "partial_pair_liquidity_only" } else { "paused_blocks_funds" };
+                tr.fail("C19", clause, e, &format!("{key}: whitelisted-contract swap succeeded while the pair is {state}"));
             }
         }
         if ok {
